@@ -10,7 +10,7 @@ open Raptor Raptor.Driver
 def rdPer (np : Nat) : Rd (List (List Int)) := (List.range np).mapM fun _ => rdVec
 
 def scenName : Nat → String
-  | 0 => "packages" | 1 => "matops" | 2 => "amg_rs" | 3 => "amg_sa" | 4 => "repartition" | 6 => "mis2_directed" | _ => "packages_back_to_back"
+  | 0 => "packages" | 1 => "matops" | 2 => "amg_rs" | 3 => "amg_sa" | 4 => "repartition" | 6 => "mis2_directed" | 7 => "long_lived_package" | _ => "packages_back_to_back"
 
 def checkSame : Rd Verdict := do
   let scen ← rdNat; let np ← rdNat; let mode ← rdNat; let site ← rdInt; let _perm ← rdNat; let delay ← rdNat
